@@ -1,5 +1,6 @@
 import AvroModel.Sem
 import AvroModel.Lemmas.ReadSpec
+import AvroModel.Lemmas.Time
 /-!
 # Value-level round trip of the codec model (C01): `ofAvro ∘ toAvro` is a normal form
 
@@ -436,6 +437,112 @@ theorem roundTrip : ∀ n, RoundTripAt env n
   | 0 => roundTrip_zero env
   | n + 1 => roundTrip_step env n (roundTrip n)
 
+/-- the same with one budget for both directions (the form asked for in the task) -/
+theorem roundTrip_same (n : Nat) (c : Codec) (g : GoVal) (v : Value)
+    (ht : toAvro env (omits env) n c g = some v) (hok : RTOk env n c g) :
+    ofAvro env n c v (Codec.zero env c) = .ok (normCodec env n c g) :=
+  roundTrip env n n c g v ht hok
+
 end
+
+/-! ## Laws of the external functions (`Env`) -/
+
+/-- float32 bit pattern of a signalling NaN: exponent all ones, quiet bit clear, payload non-zero -/
+def SNaN32 (b : Nat) : Prop := (b / 2 ^ 23) % 256 = 255 ∧ (b / 2 ^ 22) % 2 = 0 ∧ b % 2 ^ 22 ≠ 0
+
+instance (b : Nat) : Decidable (SNaN32 b) := by unfold SNaN32; exact inferInstance
+
+/-- a time that RFC 3339 can express: nanoseconds below one second, zone offset a whole number of
+minutes below 100 hours, local year 0000–9999 -/
+def TimeVal.Printable (t : TimeVal) : Prop :=
+  t.nsec < 1000000000 ∧ t.off % 60 = 0 ∧ -360000 < t.off ∧ t.off < 360000 ∧
+  -62167219200 ≤ t.unix + t.off ∧ t.unix + t.off < 253402300800
+
+instance (t : TimeVal) : Decidable t.Printable := by unfold TimeVal.Printable; exact inferInstance
+
+/-- What the value-level theorems assume of the external functions. Each law names the Go / IEEE 754
+fact it stands for. -/
+structure EnvLaws (env : Env) : Prop where
+  /-- `float32(float64(f)) == f` bit for bit unless `f` is a signalling NaN: every float32 is exactly
+  representable as a float64 (IEEE 754 §5.4.2; the conversion instructions quiet signalling NaNs). -/
+  narrow_widen : ∀ b, ¬ SNaN32 b → env.narrow (env.widen b) = b
+  /-- a float64 that was rounded to float32 survives widening and rounding again: `narrow` never
+  yields a signalling NaN, and the other float32 values are fixed by `narrow_widen`. -/
+  narrow_widen_narrow : ∀ d, env.narrow (env.widen (env.narrow d)) = env.narrow d
+  /-- the conversions map ±0 to ±0 and nothing else to ±0 (a NaN stays a NaN). -/
+  narrow_widen_zero : ∀ b, isZeroF32 (env.narrow (env.widen b)) = isZeroF32 b
+  /-- `t.Format(time.RFC3339Nano)` is never the empty string. -/
+  fmt_ne : ∀ t, env.fmtTime t ≠ []
+  /-- formatting a printable time with nanosecond precision and parsing the text yields the same
+  instant, nanoseconds and offset: `C18.format_parse` for the parser model (on broken-down fields)
+  composed with Go's `Time.Date`/`time.Date` civil-calendar conversions being mutually inverse. -/
+  parse_fmt : ∀ t : TimeVal, t.Printable → env.parseTime (env.fmtTime t) = some t
+  /-- `time.Unix(0, n).UTC()`: floor division of the nanosecond count (`Time.ofUnixNano`,
+  `C19.ofUnixNano_nanos`), zone UTC. -/
+  ofNanos_eq : ∀ n, env.ofNanos n = ⟨n / 1000000000, (n % 1000000000).toNat, 0⟩
+  /-- `time.Date(1970, 1, 1+d, 0, 0, 0, 0, time.UTC)` is midnight UTC of day `d` (`C19.dateDecode_eq`). -/
+  ofDays_eq : ∀ d, env.ofDays d = ⟨d * 86400, 0, 0⟩
+
+/-! ### the laws are consistent: a toy `Env` satisfying them -/
+
+def toyFmt (t : TimeVal) : Bytes :=
+  1 :: (writeVarint t.unix ++ (writeVarint t.nsec ++ (writeVarint t.off ++ [])))
+
+def toyParse : Bytes → Option TimeVal
+  | [] => none
+  | _ :: r =>
+    match readVarint r with
+    | .ok (u, r1) =>
+      match readVarint r1 with
+      | .ok (ns, r2) =>
+        match readVarint r2 with
+        | .ok (off, _) => some ⟨u, ns.toNat, off⟩
+        | .error _ => none
+      | .error _ => none
+    | .error _ => none
+
+/-- a toy environment: floats are widened by the identity, signalling NaNs are quieted when
+narrowing; times are printed as three varints -/
+def toyEnv : Env where
+  widen := fun b => b
+  narrow := fun d => if SNaN32 d then 0x7fc00000 else d
+  fmtTime := toyFmt
+  parseTime := toyParse
+  ofNanos := fun n => ⟨n / 1000000000, (n % 1000000000).toNat, 0⟩
+  ofDays := fun d => ⟨d * 86400, 0, 0⟩
+  custom := fun _ => ⟨fun _ => none, fun _ => none, fun _ => [], fun _ => false, .unit⟩
+
+theorem toyEnv_laws : EnvLaws toyEnv where
+  narrow_widen := by intro b hb; simp [toyEnv, hb]
+  narrow_widen_narrow := by
+    intro d
+    simp only [toyEnv]
+    by_cases hd : SNaN32 d
+    · simp only [hd, if_true]; decide
+    · simp [hd]
+  narrow_widen_zero := by
+    intro b
+    simp only [toyEnv]
+    by_cases hb : SNaN32 b
+    · simp only [hb, if_true]
+      have : isZeroF32 b = false := by
+        unfold SNaN32 at hb
+        unfold isZeroF32
+        simp
+        omega
+      rw [this]; decide
+    · simp [hb]
+  fmt_ne := by intro t; simp [toyEnv, toyFmt]
+  parse_fmt := by
+    intro t ht
+    obtain ⟨h1, h2, h3, h4, h5, h6⟩ := ht
+    have r1 : inRange 64 t.unix := by unfold inRange; simp; omega
+    have r2 : inRange 64 (t.nsec : Int) := by unfold inRange; simp; omega
+    have r3 : inRange 64 t.off := by unfold inRange; simp; omega
+    simp only [toyEnv, toyFmt, toyParse, Time.readVarint_write r1, Time.readVarint_write r2,
+      Time.readVarint_write r3]
+    simp
+  ofNanos_eq := fun _ => rfl
+  ofDays_eq := fun _ => rfl
 
 end Avro
